@@ -8,13 +8,13 @@ T = {
  "C02": ("bounded exhaustive exploration of real runs; pure re-evaluation of every stored individual and byte digests of recorded generations at every later boundary", "6 C02"),
  "C03": ("exhaustive enumeration of every consult point of every world and of every budget N; counters vs recorder", "6 C03"),
  "C04": ("exhaustive enumeration of every boundary of every world, both directions, all budget pairs; brute-force best over histories", "6 C04"),
- "C05": ("stateless exploration of the real run(): every consult index k enumerated as the first-true point of the global condition (one G deviation = complete), all shipped conditions undeviated", "6 C05"),
+ "C05": ("stateless exploration of the real run(): every consult index k enumerated as the first-true point of the global condition (one G deviation = complete), all shipped conditions undeviated with reference verdicts, every evaluation limit N swept over its whole range, evaluations counted from the call that crosses the limit", "6 C05"),
  "C06": ("deviation-bounded exploration over G/L/S choices (complete for small worlds); per-deme lifecycle automaton checked at every boundary and consult", "6 C06"),
  "C07": ("deviation-bounded exploration over sprout/stop histories; structural tree invariants and seed provenance at every boundary and round", "6 C07"),
  "C08": ("deviation-bounded exploration over scripted candidate counts, LSC verdicts; active-deme census at every consult and around every round", "6 C08"),
  "C09": ("exploration of real runs (every round, every boundary) + exact lattice cases for the strict threshold", "6 C09"),
  "C10": ("complete enumeration of weak orderings of <=5 candidates x parents x occupancy x limits x direction x chain order against a reference specification", "6 C10"),
- "C11": ("exploration of real runs incl. identity-revealing RNG answers; history joined with per-deme call sequence", "6 C11"),
+ "C11": ("exploration of real runs incl. identity-revealing RNG answers; history joined with per-deme call sequence; ask/tell protocol of CMA-ES observed at a library seam; DE donors enumerated over all triples", "6 C11"),
  "C12": ("exploration of real runs and single engine steps on tie/plateau populations under the RNG answer menu", "6 C12"),
  "C13": ("self-composition: twin executions on (f,max)/(-f,min), decision level and whole runs, exhaustively over the alphabets", "6 C13"),
  "C14": ("twin executions across prior RNG states, processes and hash seeds for every engine mix; identical tree digests", "6 C14"),
@@ -22,7 +22,7 @@ T = {
  "C16": ("complete enumeration of wrapper stacks x call sequences against a reference model compared after every call", "6 C16"),
  "C17": ("complete enumeration over box x input alphabets (face/ulp/multiple-of-range) for the three repair methods; exact rational congruence oracle", "6 C17"),
  "C18": ("deviation-bounded exploration over G/L/S choices with hibernation on/off; expected flags from the sprout probe, frozen sleepers, progress", "6 C18"),
- "C19": ("every metaepoch boundary of every world enumerated as the snapshot point; dump/load digests, RNG untouched, monitors on the continued loaded tree", "6 C19"),
+ "C19": ("every metaepoch boundary of every world enumerated as the snapshot point; dump/load digests, RNG untouched, monitors on the continued loaded tree, restored vs live continuation from identical generator states, second load of every snapshot", "6 C19"),
  "C20": ("every boundary of every world: parsed reports vs attributes; purity and idempotence of accessors", "6 C20"),
 }
 NOTE = "trusted base: the harness (hmsmc) itself, CPython/NumPy/SciPy/cma of this image; alphabets and bounds of DESIGN.md section 4; floating-point behaviour of this platform"
@@ -38,7 +38,7 @@ for pid,(tech,ref) in sorted(T.items()):
           "engine": "hmsmc",
           "level_claimed": {"category":"model_checking","text": f"Within the stated alphabets and deviation bounds every execution of the REAL pyhms code is enumerated and the oracle is evaluated in every probed state; the evidence reports states, transitions, executions and the bound completed. {tech}.", "design_ref": f"DESIGN.md section {ref}"},
           "level_note": NOTE,
-          "technique": "model checking: " + tech,
+          "technique": "model checking: " + tech + "; additionally single undeviated runs of the worlds beyond the small scope (hmsmc/scale.py, DESIGN.md 11.8) under the same oracles - those are not an exhaustive exploration",
         })
     else:
         na.append({"property_id": pid, "reason": "check not built yet in this revision of /verif (planned, see DESIGN.md section 6); not a statement that the technique cannot apply"})
